@@ -33,37 +33,39 @@ func (e errorString) Error() string {
 
 type plainError string
 
+func (e plainError) RuntimeError() {}
+
 func (e plainError) Error() string {
 	return string(e)
 }
 
 func AssertRuntimeError(b bool, msg string) {
 	if b {
-		panic(errorString(msg).Error())
+		panic(errorString(msg))
 	}
 }
 
 func AssertNegativeShift(b bool) {
 	if b {
-		panic(errorString("negative shift amount").Error())
+		panic(errorString("negative shift amount"))
 	}
 }
 
 func AssertIndexRange(b bool) {
 	if b {
-		panic(errorString("index out of range").Error())
+		panic(errorString("index out of range"))
 	}
 }
 
 func AssertDivideByZero(b bool) {
 	if b {
-		panic(errorString("integer divide by zero").Error())
+		panic(errorString("integer divide by zero"))
 	}
 }
 
 func AssertNilDeref(b bool) {
 	if b {
-		panic(errorString("invalid memory address or nil pointer dereference").Error())
+		panic(errorString("invalid memory address or nil pointer dereference"))
 	}
 }
 
